@@ -430,6 +430,67 @@ func runC02(c *core.Ctx, ck *Check) {
 			tryWith(strings.Join(groups, osep), toks)
 			w.Count("shape:or-of-spans", 1)
 		}
+		// long homogeneous lists (size thresholds: set-based fast paths for "8 or more exclusions", "16 or more exact
+		// alternatives"): AND lists of 8..40 != bounds with an optional lower / upper bound, OR lists of 16..40 exact versions
+		var neSp, eqSp []string
+		for _, sp := range spell {
+			switch syn.ops[sp] {
+			case "!=":
+				neSp = append(neSp, sp)
+			case "=":
+				eqSp = append(eqSp, sp)
+			}
+		}
+		for k := 0; k < c.Scale(12, 60) && len(near) >= 12; k++ {
+			cnt := []int{8, 9, 12, 16, 17, 32, 33, 40}[r.IntN(8)]
+			at := r.IntN(len(near))
+			pickNear := func() string {
+				x := at + r.IntN(2*cnt) - cnt/2
+				if x < 0 {
+					x = 0
+				}
+				if x >= len(near) {
+					x = len(near) - 1
+				}
+				return p.Strs[near[x]]
+			}
+			if len(neSp) > 0 && len(syn.and) > 0 {
+				sep := syn.and[r.IntN(len(syn.and))]
+				var parts, toks []string
+				if len(lowSp) > 0 && r.IntN(2) == 0 {
+					sp, b := lowSp[r.IntN(len(lowSp))], pickNear()
+					parts, toks = append(parts, sp+b), append(toks, sp, b)
+				}
+				for x := 0; x < cnt; x++ {
+					sp, b := neSp[r.IntN(len(neSp))], pickNear()
+					parts, toks = append(parts, sp+b), append(toks, sp, b)
+				}
+				if len(upSp) > 0 && r.IntN(2) == 0 {
+					sp, b := upSp[r.IntN(len(upSp))], pickNear()
+					parts, toks = append(parts, sp+b), append(toks, sp, b)
+				}
+				r.Shuffle(len(parts), func(a, b int) {
+					parts[a], parts[b] = parts[b], parts[a]
+					toks[2*a], toks[2*b] = toks[2*b], toks[2*a]
+					toks[2*a+1], toks[2*b+1] = toks[2*b+1], toks[2*a+1]
+				})
+				tryWith(strings.Join(parts, sep), toks)
+				w.Count("shape:long-exclusion-list", 1)
+			}
+			if len(eqSp) > 0 && len(syn.or) > 0 {
+				osep := syn.or[r.IntN(len(syn.or))]
+				var parts, toks []string
+				for x := 0; x < cnt*2; x++ {
+					if x > 0 {
+						toks = append(toks, "||")
+					}
+					sp, b := eqSp[r.IntN(len(eqSp))], pickNear()
+					parts, toks = append(parts, sp+b), append(toks, sp, b)
+				}
+				tryWith(strings.Join(parts, osep), toks)
+				w.Count("shape:long-enumeration", 1)
+			}
+		}
 		w.Sample(map[string]any{"eco": e.Name, "example_range": spell[0] + p.Strs[bounds[0]], "probes": n, "bounds": len(bounds)})
 	})
 }
